@@ -153,11 +153,16 @@ class ContextMixin(object):
                 new_kwargs.update(kw_only_args_defaults)
 
                 # Values from the context take priority over default argument
-                # values.
-                context = self.get_context_arguments()
-                for name, val in iteritems(context):
-                    if name in new_kwargs:
-                        new_kwargs[name] = val
+                # values. NB: The context only supplies the arguments of calls
+                # made by the user: calls which a contextual method makes to
+                # other contextual methods as part of its implementation
+                # receive only the arguments they are explicitly given.
+                nested = getattr(self, "_in_contextual_call", 0)
+                if not nested:
+                    context = self.get_context_arguments()
+                    for name, val in iteritems(context):
+                        if name in new_kwargs:
+                            new_kwargs[name] = val
 
                 # Finally, the values actually pased to the function call take
                 # ultimate priority.
@@ -169,7 +174,11 @@ class ContextMixin(object):
                         raise TypeError(
                             "{!s}: missing argument {}".format(f.__name__, k))
 
-                return f(self, *args, **new_kwargs)
+                self._in_contextual_call = nested + 1
+                try:
+                    return f(self, *args, **new_kwargs)
+                finally:
+                    self._in_contextual_call = nested
             return f_
 
         return decorator
